@@ -32,21 +32,22 @@ theorem Inv.emit {C W : List Nat} {top : Option Nat} {s : State} (h : Inv C W to
     Inv C W top (s.emit m) := h.congr rfl rfl rfl rfl rfl rfl rfl rfl rfl
 
 /-- the loop of `waittill` / `waittill_any` -/
-theorem regFold_inv {fuel : Nat} {W : List Nat} {t o : Nat} (ho100 : o < 100) :
-    ∀ (names : List Nat) (s : State), Inv [] W (some t) s →
+theorem regFold_inv {fuel : Nat} {W : List Nat} {t o : Nat} :
+    ∀ (names : List Nat) (s : State), (∀ n ∈ names, o < 100 ∨ NameOK n) → Inv [] W (some t) s →
       (Tbl.hasOwner s.waitFor t = false →
         ∃ th0, thFind s.threads t = some th0 ∧ th0.vm = .running ∧ th0.hasVM = true) →
       s.alive o = true →
       Ok (names.foldl (fun s n => regWait (stop fuel) s o n t) s)
         (Inv [] W (some t) (names.foldl (fun s n => regWait (stop fuel) s o n t) s) ∧
           G s (names.foldl (fun s n => regWait (stop fuel) s o n t) s))
-  | [], s, h, _, _ => Ok.pure ⟨h, G.refl s⟩
-  | n :: names, s, h, hrun, ho => by
+  | [], s, _, h, _, _ => Ok.pure ⟨h, G.refl s⟩
+  | n :: names, s, hon, h, hrun, ho => by
     simp only [List.foldl_cons]
-    refine (regWait_inv (fuel := fuel) (some t) o n h hrun ho (Or.inl ho100) (Or.inl rfl)).bind
+    refine (regWait_inv (fuel := fuel) (some t) o n h hrun ho (hon n List.mem_cons_self) (Or.inl rfl)).bind
       (Pres.foldl _ (fun s a => regWait_pres (presAll fuel).stp _ _ _ _) _ _) (fun p => ?_)
     obtain ⟨p1, p2, p3, p4, _, p6⟩ := p
-    refine (regFold_inv ho100 names _ p1 (fun hno => by rw [p3] at hno; cases hno) (by rw [p4]; exact ho)).map
+    refine (regFold_inv names _ (fun m hm => hon m (List.mem_cons_of_mem _ hm)) p1
+      (fun hno => by rw [p3] at hno; cases hno) (by rw [p4]; exact ho)).map
       (fun q => ⟨q.1, G.trans h.n (p2.withCur (Or.inl p6)) q.2⟩)
 
 /-- fresh record in the state after a thread creation -/
@@ -107,7 +108,7 @@ theorem exec_waittill_inv {fuel : Nat} {W : List Nat} {s : State} {t : Nat} {th0
         · rw [hc] at e; cases e
       subst hct
       simp only
-      exact regFold_inv (fuel := fuel) (objAlive_lt h.n hoa') names s (h.toTop c)
+      exact regFold_inv (fuel := fuel) names s (fun _ _ => Or.inl (objAlive_lt h.n hoa')) (h.toTop c)
         (fun _ => ⟨th0, r.find, r.vm, r.hasVM⟩) (objAlive_alive h.n hoa')
 
 theorem exec_waittillTimeout_inv {fuel : Nat} {W : List Nat} {s : State} {t : Nat} {th0 th : Th}
@@ -226,12 +227,35 @@ theorem exec_waitthread_inv {fuel : Nat} (ih : IHx fuel) {W : List Nat} {s : Sta
         rw [State.alive_thread _ (by simp [State.isThread]; exact h.n.tid100)]
         exact (aliveTh_iff i1.n.nodup _).2 ⟨r1, hr1, hd1⟩
       refine (regWait_inv (fuel := fuel) none s.nextTid 0 (i1.toTop c) (fun _ => ⟨th0, hkeep, r.vm, r.hasVM⟩)
-        halive (Or.inr rfl) (Or.inr ⟨rfl, r'.noOwner i1⟩)).bind ((presAll fuel).sei _ _) (fun p => ?_)
+        halive (Or.inr nameOK_zero) (Or.inr ⟨rfl, r'.noOwner i1⟩)).bind ((presAll fuel).sei _ _) (fun p => ?_)
       obtain ⟨p1, p2, _, _, p5, p6⟩ := p
       have hr2 : thFind (regWait (stop fuel) (spawnNew s c l) s.nextTid 0 c).threads s.nextTid = some r1 := by
         rw [p5 _ hne]; exact hr1
       refine (ih.sei W _ s.nextTid r1 (p1.consW _) hr2 hv1).map (fun q => ⟨q.1.toTop c, ?_⟩)
       exact G.trans h.n g1 (G.trans i1.n (p2.withCur (Or.inl p6)) q.2)
+
+theorem exec_waittillParent_inv {fuel : Nat} {W : List Nat} {s : State} {t : Nat} {th0 th : Th} (h : Inv [] W none s)
+    (r : Running s t th0) (hcur : s.cur = some t ∨ s.cur = none) (names : List Nat) (hok : ∀ n ∈ names, NameOK n) :
+    Ok (exec (fuel + 1) s t th (.waittillParent names))
+      (Inv [] W (some t) (exec (fuel + 1) s t th (.waittillParent names)) ∧
+        G s (exec (fuel + 1) s t th (.waittillParent names))) := by
+  rw [exec_waittillParent]
+  split
+  · exact Ok.pure ⟨h.toTop t, G.refl s⟩
+  · rename_i hg
+    simp only [Bool.or_eq_true, beq_iff_eq, Bool.not_eq_eq_eq_not, Bool.not_true, not_or] at hg
+    have hal : s.alive th.parent = true := by simpa using hg.2
+    cases hc : s.cur with
+    | none => exact Ok.pure ⟨h.toTop t, G.refl s⟩
+    | some c =>
+      have hct : c = t := by
+        rcases hcur with e | e
+        · rw [hc] at e; exact Option.some.inj e
+        · rw [hc] at e; cases e
+      subst hct
+      simp only
+      exact regFold_inv (fuel := fuel) names s (fun n hn => Or.inr (hok n hn)) (h.toTop c)
+        (fun _ => ⟨th0, r.find, r.vm, r.hasVM⟩) hal
 
 theorem exec_waitParent_inv {fuel : Nat} (ih : IHx fuel) {W : List Nat} {s : State} {t : Nat} {th : Th}
     (h : Inv [] W none s) (ms : Nat) :
@@ -338,7 +362,7 @@ theorem exec_inv_succ {fuel : Nat} (ih : IHx fuel) : IEx (exec (fuel + 1)) := by
   | waitthread l => exact exec_waitthread_inv ih h r hcur l
   | pause => exact exec_pause_inv h r
   | waitParent ms => exact exec_waitParent_inv ih h ms
-  | waittillParent names => exact absurd hok (by simp [Instr.ok])
+  | waittillParent names => exact exec_waittillParent_inv h r hcur names hok
   | notifyParent n =>
     rw [exec_notifyParent]
     split
